@@ -1,12 +1,12 @@
 #!/bin/bash
-# round-5 changes (select, handle creation, close/reopen, storage iteration)
+# round-5 changes (select, handle creation, close/reopen, storage iteration); primary check first, cheap secondary checks only
 cd "$(dirname "$0")/.."
 t() { tools/try_seed.sh "$@"; }
-t /tmp/wt5-C01-out 1 R5-C01-select-index-field-truthiness C01 C10
-t /tmp/wt5-C01-out 2 R5-C01-select-scan-raw-timestamp C01 C08
-t /tmp/wt5-C10-out 1 R5-C10-select-filter-only-known-names C10 C01
-t /tmp/wt5-C10-out 2 R5-C10-handle-caches-index-object C10 C06 C07
 t /tmp/wt5-C04-out 1 R5-C04-close-truncates-at-read-position C04 C15
 t /tmp/wt5-C04-out 2 R5-C04-prefix-replace-all C04 C05
-t /tmp/wt5-C07-out 1 R5-C07-memory-read-returns-internal-list C07 C01
-t /tmp/wt5-C07-out 2 R5-C07-reopen-without-newline C07 C04 C05
+t /tmp/wt5-C07-out 1 R5-C07-memory-read-returns-internal-list C07
+t /tmp/wt5-C07-out 2 R5-C07-reopen-without-newline C07 C04
+t /tmp/wt5-C10-out 1 R5-C10-select-filter-only-known-names C10
+t /tmp/wt5-C10-out 2 R5-C10-handle-caches-index-object C10
+t /tmp/wt5-C01-out 1 R5-C01-select-index-field-truthiness C01
+t /tmp/wt5-C01-out 2 R5-C01-select-scan-raw-timestamp C01
